@@ -1,13 +1,15 @@
 #!/bin/bash
-# usage: try_seed.sh <patch.diff> <Cnn> [tier] [extra check args]   -- applies the patch to /repo, runs the check, reverts
+# usage: try_seed.sh <seed id | patch.diff> <Cnn> [tier] [extra check args]
+# applies the patch in a scratch worktree of /repo (never in /repo itself), runs the check against it, removes the worktree
 set -u
 patch="$1"; prop="$2"; tier="${3:-quick}"; shift 3 2>/dev/null || shift $#
-cd /repo || exit 9
-if ! git diff --quiet; then echo "repo not clean"; exit 9; fi
-git apply "$patch" || { echo "patch does not apply"; exit 9; }
+[ -f "$patch" ] || patch=/verif/seeded/$patch/patch.diff
+WT=/tmp/wt-try-$$
+git -C /repo worktree add -q --detach $WT HEAD || exit 9
+(cd $WT && git apply "$patch") || { echo "patch does not apply"; git -C /repo worktree remove --force $WT; exit 9; }
 cd /verif
-./check "$prop" --tier "$tier" --no-evidence "$@"
+VERIF_REPO=$WT ./check "$prop" --tier "$tier" --no-evidence "$@"
 rc=$?
-git -C /repo checkout -- . 
+git -C /repo worktree remove --force $WT
 echo "seed rc=$rc"
 exit $rc
